@@ -145,6 +145,18 @@ CLAIMS = {
              "parser, binder and planner are not modelled beyond the tokenizer (their totality is only sampled by the statement stream); statement text reaches the engine as &str, so invalid UTF-8 cannot be submitted.",
         technique="Lean 4 proof (tokenizer progress/termination/bounds by induction; unbounded nesting depth) + tokenizer correspondence + crash/hang/state-preservation oracle on fuzzed statements in child processes",
         design="5/C15", partial=True),
+    "C18": dict(
+        text=("Translator + proof + three-way agreement. tools/gen_tables.py regenerates Generated/CastTable.lean on every run from what the running code answers for implicit_cast_score on every ordered pair of "
+              "23 DataTypeIds; Props/C18.lean proves over that table (decide +kernel over the whole finite table, lifted by all_complete): an exact match beats every implicit cast, scores depend only on the target, "
+              "implicit integer casts are widening, no fractional type is implicitly cast to an integer, and UNION unification (Core/Unify.lean, model of bind_setop.rs) fails exactly when no implicit cast exists either "
+              "way and otherwise yields one of the two branch types to which the other has an implicit cast, independent of branch order; plus the decimal +/- announced-vs-produced type (witness of the repaired "
+              "re-bind defect). A changed cast rule changes the Lean source these proofs are about. Tie: for ~8800 statements DESCRIBE S, the result's output schema and the datatype of every produced array must agree "
+              "(all ordered pairs of 17 SQL types as UNION branches - also against the unification model -, all type pairs x 11 operator forms in column and literal form, every scalar/aggregate function name x 17-33 "
+              "argument-type combinations, random typed queries, DESCRIBE of tables/views/table functions/files vs SELECT *, DML/SHOW/EXPLAIN)."),
+        note=TB + "overload resolution beyond the score table (candidate.rs) and the per-function return-type rules are tied only by the three-way agreement, not modelled; Array::get_value derives decimal precision/scale and "
+             "timestamp unit from the array's datatype, so 'type of every value' is checked as 'type of every array'; statements that return no batch cannot be checked for produced types (counted in the evidence).",
+        technique="translator (cast table regenerated from the running code) + Lean 4 proofs over the whole table (decide +kernel) + DESCRIBE / output-schema / produced-array agreement on type-directed statement streams",
+        design="5/C18"),
 }
 
 NOT_YET = {
